@@ -257,7 +257,7 @@ def fault_run(t, seed):
   opt = dsh.make_opt(c)
   if mode == 'quantized':
     devs = jax.devices()[:1]
-    rep = lambda x: jax.device_put_replicated(x, devs)
+    rep = lambda x: jax.tree_util.tree_map(lambda a: jnp.stack([jnp.asarray(a)] * len(devs)), x)
     state = jax.pmap(opt.init, axis_name='batch', devices=devs)(rep(params))
     upd = jax.pmap(opt.update, axis_name='batch', devices=devs)
   else:
